@@ -38,6 +38,9 @@ def scenarios(thorough):
     # drains (service-time watermark flush) while the I/O thread may be in handle_write
     out.append(cc.mk([P(1), P(2)], lookahead=1, workers=1, room=30, extra_client=[["read_after_block", 1, 40], ["read_after_block", 2, 50], ["readall_after_block", 3]],
                      apps={1: {"chunks": [60]}, 2: {"chunks": [30]}}, adj={"outbuf_high_watermark": 50}, name="2plain la=1 hwm=50, backlog above the mark at the end of a request"))
+    # an out buffer that spills to a file while partly sent, with a pipelined follower behind it
+    out.append(cc.mk([P(1), P(2)], lookahead=1, workers=1, room=30, extra_client=[["readall_after_block", 4]],
+                     apps={1: {"chunks": [40] * 8}}, adj={"outbuf_high_watermark": 1000, "outbuf_overflow": 250}, name="2plain la=1, out buffer spills while partly sent"))
     # the same with a socket that accepts nothing at first (output stays pending while the worker finishes)
     slow = [["readall_after_block", 1]]
     out.append(cc.mk([P(1), P(2)], lookahead=1, workers=2, room=0, extra_client=slow, name="2plain la=1 slow client"))
